@@ -835,6 +835,24 @@ impl<TokenIter: Iterator<Item = Result<Token>>> Parser<TokenIter> {
     }
 
     fn transform_formals(args: Datum) -> Result<ParameterFormals> {
+        let formals = Self::transform_formals_unchecked(args)?;
+        // every formal has to be an identifier, (lambda ((a) b) ...) is illegal
+        let mut illegal = None;
+        formals.iter_to_last(|formal| {
+            if let (ParameterFormalsBody::Pair(_), None) = (&formal.data, &illegal) {
+                illegal = Some(formal.clone());
+            }
+        });
+        match illegal {
+            Some(formal) => {
+                let location = formal.location;
+                located_error!(SyntaxError::IllegalParameter(formal), location)
+            }
+            None => Ok(formals),
+        }
+    }
+
+    fn transform_formals_unchecked(args: Datum) -> Result<ParameterFormals> {
         let location = args.location;
         Ok(match args {
             Datum {
